@@ -37,6 +37,13 @@ func callTf(name, in string) (obs string) {
 	if out2 != out || changed2 != changed || (terr == nil) != (terr2 == nil) {
 		return "IMPURE"
 	}
+	// aliasing: a later call on different input must not rewrite an earlier result
+	saved := strings.Clone(out)
+	t(keep + "\x01 Zz%41")
+	t("q" + keep)
+	if out != saved {
+		return "ALIASED"
+	}
 	if terr != nil {
 		return "- 0 1"
 	}
